@@ -130,6 +130,10 @@ def rows():
         add("bytes", "from_bytes", 0, (bs, "big"), I(int.from_bytes(bs, "big")), True)
         add("bytes", "from_bytes", 0, (bs, "little"), I(int.from_bytes(bs, "little")), True)
     add("bytes", "from_bytes", 0, (b"\x01", "middle"), R("ValueError"), True)
+    # a caller's bytearray is read, never changed (the conversion must work on a copy)
+    for bs in (bytearray(b"\x01\x02\x03"), bytearray(range(1, 20)), bytearray(b"\x00\x80")):
+        add("bytes", "from_bytes", 0, (bs, "big"), I(int.from_bytes(bs, "big")), True)
+        add("bytes", "from_bytes", 0, (bs, "little"), I(int.from_bytes(bs, "little")), True)
     for a, m in ((3, 7), (10, 17), (2, 9), (5, W), (W + 1, BIG), (17, 3120), (-3, 7), (W + 5, 65537)):
         add("inverse", "inverse", a, (m,), I(pow(a, -1, m)))
         add("inverse", "inplace_inverse", a, (m,), I(pow(a, -1, m)))
@@ -279,7 +283,9 @@ class Backend(object):
         ps = params_of(fn)
         is_cm = any(getattr(d, "id", None) == "classmethod" for d in fn.decorator_list)
         names = ps if (static and not is_cm) else ps[1:]
-        args = tuple(self.make(it, st, x[1]) if isinstance(x, tuple) and len(x) == 2 and x[0] == "I" else x for x in args)
+        args = tuple(self.make(it, st, x[1]) if isinstance(x, tuple) and len(x) == 2 and x[0] == "I" else
+                     (bytearray(x) if isinstance(x, bytearray) else x) for x in args)
+        mutable_before = [(k, bytes(x)) for k, x in enumerate(args) if isinstance(x, bytearray)]
         seeds = dict(zip(names, args))
         if static and is_cm:
             seeds[ps[0]] = AClass(self.mod, self.cls)
@@ -292,6 +298,14 @@ class Backend(object):
             return ("undecided", "%d exits, possible raises %s" % (len(rets), res.raise_classes()))
         v = rets[0].value
         est = rets[0].state
+        for k, before in mutable_before:
+            now = None
+            for fr in est.frames[:1]:
+                pass
+            # the bytearray handed in is the same Python object unless the state was copied; look it up by parameter name
+            cur = args[k]
+            if bytes(cur) != before:
+                return ("mutated-argument", "argument %d is now %s" % (k, bytes(cur).hex()))
         if meth == "set":
             return ("self", self.value(est, me))
         if self.is_own(v):
